@@ -212,10 +212,27 @@ def member(v, t, ns: dict, depth: int = 0) -> bool:
         raise Unsupported("literal of " + fn)
     if isinstance(t, T.TupleType):
         fb = t.partial_fallback.type.fullname
-        if any(isinstance(T.get_proper_type(i), T.UnpackType) or isinstance(i, T.UnpackType) for i in t.items):
-            raise Unsupported("variadic tuple")
         if not isinstance(v, tuple):
             return False
+        unp = [k for k, i in enumerate(t.items) if isinstance(i, T.UnpackType)]
+        if unp:
+            # tuple[P..., *tuple[E, ...], S...]
+            if len(unp) != 1:
+                raise Unsupported("several unpacks")
+            k = unp[0]
+            mid = T.get_proper_type(t.items[k].type)
+            if not (isinstance(mid, T.Instance) and mid.type.fullname == "builtins.tuple"):
+                raise Unsupported("variadic tuple over " + type(mid).__name__)
+            pre, suf = t.items[:k], t.items[k + 1 :]
+            if fb != "builtins.tuple" and not isinstance(v, resolve_class(fb, ns)):
+                return False
+            if len(v) < len(pre) + len(suf):
+                return False
+            return (
+                all(member(x, i, ns, depth + 1) for x, i in zip(v, pre))
+                and all(member(x, i, ns, depth + 1) for x, i in zip(v[len(v) - len(suf):], suf) if suf)
+                and all(member(x, mid.args[0], ns, depth + 1) for x in v[len(pre) : len(v) - len(suf)])
+            )
         if fb != "builtins.tuple" and not isinstance(v, resolve_class(fb, ns)):
             return False
         return len(v) == len(t.items) and all(member(x, i, ns, depth + 1) for x, i in zip(v, t.items))
